@@ -159,6 +159,115 @@ theorem C05_add_param_args {V : Type} (defn defaults args : Dict V) (k : String)
       simp only [List.map_cons, List.find?, hb]
       exact ih h'
 
+/-! ### precedence across a placement (hierarchy level) -/
+
+namespace Dict
+variable {V : Type}
+
+def keys (d : Dict V) : List String := d.kv.map (·.1)
+
+theorem lastOf_eq_get?_of_nodup (l : List (String × V)) (h : (l.map (·.1)).Nodup) (x : String) :
+    lastOf l x = (Dict.mk l).get? x := by
+  induction l with
+  | nil => rfl
+  | cons a t ih =>
+    rw [List.map_cons, List.nodup_cons] at h
+    rw [lastOf_cons, ih h.2]
+    unfold get?
+    by_cases hx : a.1 = x
+    · have hnone : t.find? (·.1 == x) = none := by
+        rw [List.find?_eq_none]; intro e he hb
+        exact h.1 (List.mem_map.2 ⟨e, he, by rw [hx]; simpa using hb⟩)
+      simp [List.find?, hx, hnone]
+    · have : (a.1 == x) = false := by simpa using hx
+      simp only [List.find?, this]
+      cases (t.find? (·.1 == x)) <;> simp [hx]
+
+theorem set_keys_nodup (d : Dict V) (k : String) (v : V) (h : d.keys.Nodup) : (d.set k v).keys.Nodup := by
+  unfold set keys at *
+  split
+  · rename_i hk
+    have : (d.kv.map fun e => if e.1 == k then (k, v) else e).map (·.1) = d.kv.map (·.1) := by
+      rw [List.map_map]
+      apply List.map_congr_left
+      intro e _
+      by_cases he : e.1 = k
+      · simp [he]
+      · simp [he]
+    rw [this]; exact h
+  · rename_i hk
+    have hk' : k ∉ d.kv.map (·.1) := by
+      intro hm
+      obtain ⟨e, he, hek⟩ := List.mem_map.1 hm
+      apply hk
+      unfold hasKey
+      exact List.any_eq_true.2 ⟨e, he, by simpa using hek⟩
+    rw [List.map_append, List.nodup_append]
+    refine ⟨h, by simp, ?_⟩
+    intro a ha b hb e
+    have : b = k := by simpa using hb
+    subst this; subst e; exact hk' ha
+
+theorem overlay_keys_nodup (d e : Dict V) (h : d.keys.Nodup) : (d.overlay e).keys.Nodup := by
+  unfold overlay
+  induction e.kv generalizing d with
+  | nil => simpa using h
+  | cons a t ih => exact ih (d.set a.1 a.2) (set_keys_nodup d a.1 a.2 h)
+
+end Dict
+
+theorem solverParams_keys_nodup {V : Type} (defaults args derived : Dict V) : (solverParams defaults args derived).keys.Nodup := by
+  unfold solverParams
+  exact Dict.overlay_keys_nodup _ _ (Dict.overlay_keys_nodup _ _ (Dict.overlay_keys_nodup _ _ (by simp [Dict.keys])))
+
+theorem renameFixed_keys_nodup {V : Type} (m : Table) (hold : (m.map (·.2)).Nodup) (d : Dict V) (hd : d.keys.Nodup) :
+    (renameFixed m d).keys.Nodup := by
+  unfold renameFixed Dict.keys at *
+  rw [List.map_append, List.nodup_append]
+  refine ⟨(List.filter_sublist.map _).nodup hd, ?_, ?_⟩
+  · -- the added keys are old names of `m`, in order: a sublist of the (distinct) old names
+    have : ((m.filterMap fun no => (d.get? no.1).map fun v => (no.2, v)).map (·.1)).Sublist (m.map (·.2)) := by
+      induction m with
+      | nil => simp
+      | cons a t ih =>
+        rw [List.filterMap_cons]
+        cases d.get? a.1 with
+        | none => simp only [Option.map_none, List.map_cons]; exact List.Sublist.cons _ (ih (List.nodup_cons.1 hold).2)
+        | some v => simp only [Option.map_some, List.map_cons]; exact List.Sublist.cons_cons _ (ih (List.nodup_cons.1 hold).2)
+    exact this.nodup hold
+  · intro a ha b hb e
+    subst e
+    obtain ⟨e1, he1, rfl⟩ := List.mem_map.1 ha
+    obtain ⟨e2, he2, hk⟩ := List.mem_map.1 hb
+    obtain ⟨no, hno, hv⟩ := List.mem_filterMap.1 he2
+    obtain ⟨he1d, hf⟩ := List.mem_filter.1 he1
+    cases hg : d.get? no.1 with
+    | none => rw [hg] at hv; cases hv
+    | some v =>
+      rw [hg] at hv
+      simp only [Option.map_some, Option.some.injEq] at hv
+      subst hv
+      simp only [Bool.not_eq_true', List.any_eq_false, Bool.or_eq_true, beq_iff_eq, not_or] at hf
+      exact (hf no hno).2 hk
+
+/-- **precedence across a placement**: a placed child (own defaults `cd`) receives the parent's whole parameter
+dictionary (parent defaults `pd` overlaid by the call values `args`) through a placement renamed by `m`.  For every
+inner name `x` the child then uses the value the parent has for the name under which `x` is visible there - explicit
+call value, else parent default - and only if the parent has none, its own default.  (Several levels: iterate, with
+`C05_compose` / `C11_compose_general` for the renamings.) -/
+theorem C05_precedence_hierarchy {V : Type} (m : Table) (hold : (m.map (·.2)).Nodup) (pd args cd : Dict V) (x : String) :
+    (solverParams cd (renameFixed m (solverParams pd args ⟨[]⟩)) ⟨[]⟩).get? x =
+      (simul m (solverParams pd args ⟨[]⟩) x).or (Dict.lastOf cd.kv x) := by
+  rw [C05_precedence]
+  have hk := renameFixed_keys_nodup m hold _ (solverParams_keys_nodup pd args ⟨[]⟩)
+  rw [Dict.lastOf_eq_get?_of_nodup _ hk, C05_rename_simultaneous m _ hold]
+  simp [Dict.lastOf]
+
+/-- … and what the parent has for a name is: the call value, else its default -/
+theorem C05_parent_value {V : Type} (pd args : Dict V) (y : String) :
+    (solverParams pd args ⟨[]⟩).get? y = (Dict.lastOf args.kv y).or (Dict.lastOf pd.kv y) := by
+  rw [C05_precedence]; simp [Dict.lastOf]
+
 /-! non-vacuity: a swap and a chain on concrete tables -/
 example : ((renameFixed [("B", "A"), ("A", "B")] (⟨[("A", 1), ("B", 2)]⟩ : Dict Nat)).get? "A",
            (renameFixed [("B", "A"), ("A", "B")] (⟨[("A", 1), ("B", 2)]⟩ : Dict Nat)).get? "B") = (some 2, some 1) := by
